@@ -920,8 +920,12 @@ def run_c18(ctx, ak, P, case):
             # (the order in which the fields of records are strung together is not fixed by any statement)
             same = sorted(map(repr, lv)) == sorted(map(repr, ev))
             stop_chain = True            # (the two sides may now hold the same items in a different order)
+        elif op["op"] in ("reduce_none", "reduce_inner"):
+            same = model.same(lv, ev, rel=1e-5)      # (floating-point sums are accumulated partition by partition)
         else:
             same = model.same(lv, ev)
+        if pop == "partitioned" and op["op"] == "combinations":
+            stop_chain = True                        # (the result holds partitioned records: not drawn, see gen_c18)
         if not same:
             ctx.violation("lazy-value-differs" if pop == "virtual" else "partition-value-differs",
                           dict(d2, eager=model.brief(ev, 400), got=model.brief(lv, 400)))
